@@ -492,9 +492,10 @@ class Ctx:
         }
         if inconclusive_reasons:
             ev["coverage"]["inconclusive"] = inconclusive_reasons
-        os.makedirs(os.path.join(VERIF, "evidence"), exist_ok=True)
+        evdir = os.environ.get("VERIF_EVIDENCE_DIR") or os.path.join(VERIF, "evidence")
+        os.makedirs(evdir, exist_ok=True)
         if not self.replay:
-            with open(os.path.join(VERIF, "evidence", self.prop + ".json"), "w") as f:
+            with open(os.path.join(evdir, self.prop + ".json"), "w") as f:
                 json.dump(ev, f, indent=1, sort_keys=True, ensure_ascii=False)
                 f.write("\n")
         # report
@@ -507,7 +508,7 @@ class Ctx:
         for s, (k, n) in known_hits.items():
             print("KNOWN-FINDING: property=%s %s [%s; seen %d times]" % (self.prop, k.get("what", ""), s, n))
         if fresh:
-            rdir = os.path.join(VERIF, "replays", self.prop)
+            rdir = os.path.join(os.environ.get("VERIF_REPLAY_DIR") or os.path.join(VERIF, "replays"), self.prop)
             os.makedirs(rdir, exist_ok=True)
             shown = 0
             seen_kinds = collections.Counter()
